@@ -27,6 +27,7 @@ var c15Alphabet = []c15Group{
 	{"oversize", "bad", 2}, {"just-under-limit", "good", 2},
 	{"unknown-action", "bad", 1}, {"delete", "bad", 1}, {"update", "bad", 2},
 	{"no-index-name", "either", 2},
+	{"bad-index-name", "either", 2}, // a name the index-name rules reject (path separator)
 	{"index-no-doc", "bad", 1}, // only meaningful as the last group
 }
 
@@ -72,6 +73,8 @@ func c15Build(j *c15Job, hist string, ia, ib string) (body string, docIDs []stri
 			sb.WriteString(`{"update":{"_index":"` + ia + `","_id":"1"}}` + "\n" + `{"doc":` + doc + `}` + "\n")
 		case "no-index-name":
 			sb.WriteString(`{"index":{}}` + "\n" + doc + "\n")
+		case "bad-index-name":
+			sb.WriteString(`{"index":{"_index":"` + ia + `/x"}}` + "\n" + doc + "\n")
 		case "index-no-doc":
 			sb.WriteString(`{"index":{"_index":"` + ia + `"}}` + "\n")
 		}
@@ -285,10 +288,12 @@ func c15Enumerate(tier string, emit func(c15Job)) {
 
 func C15() int {
 	rep := kernel.NewReport("C15", "exploration")
-	rep.Rule = "all bulk bodies of ≤ depth action groups over a 12-kind alphabet (valid index/create on two indexes, invalid and truncated " +
+	rep.Rule = "all bulk bodies of ≤ depth action groups over a 13-kind alphabet (valid index/create on two indexes, a rejected index name, invalid and truncated " +
 		"documents, document at and just under the record size limit, unknown action, delete, update, missing _index, index without " +
 		"document line as last group) × trailing newline present/absent; executed through HandleBulkBody, flushed, searched by a per-history " +
-		"marker. non-trivial = body mixes ≥1 well-formed and ≥1 malformed group"
+		"marker. Splunk HEC bodies (a series of JSON objects, acknowledged as a whole): all series of ≤ depth pieces over {event for index a, event for index b, stray }, stray ], truncated " +
+		"event, garbage, object without event} joined with and without newlines, through the HTTP endpoint: an acknowledged body has every complete event stored exactly once, nothing is stored twice or unsent. " +
+		"non-trivial = body mixes ≥1 well-formed and ≥1 malformed group"
 	rep.Assume = []string{"'created' = item status 2xx; 'failed' = any other status",
 		"for groups the statement does not classify (invalid/truncated JSON, missing _index) only 'acknowledged iff stored' is asserted"}
 	budget := kernel.NewBudget(map[string]time.Duration{"quick": 120 * time.Second, "thorough": 20 * time.Minute}[rep.Tier])
@@ -360,12 +365,20 @@ func C15() int {
 	if skipped > 0 {
 		rep.Cap(fmt.Sprintf("time budget: %d of %d bodies not run", skipped, total))
 	}
+	c15Hec(rep, budget)
 	return rep.Finish()
 }
 
 func init() {
 	Registry["C15"] = C15
 	Replayers["C15"] = func(doc json.RawMessage) int {
+		var probe struct {
+			Pieces []string `json:"pieces"`
+		}
+		_ = json.Unmarshal(doc, &probe)
+		if len(probe.Pieces) > 0 {
+			return MakeReplayer[c15HecJob]("C15", "exploration", serverPool, c15HecRun)(doc)
+		}
 		var j c15Job
 		if err := json.Unmarshal(doc, &j); err != nil {
 			fmt.Println("HARNESS-ERROR", err)
